@@ -148,7 +148,7 @@ def run_with(case, sched):
     case["_switches"] = len(sched.trace)
 
 def run_sim(case):
-    run_with(case, Sched(choices=case.get("choices", ()), max_steps=30000))
+    run_with(case, Sched(choices=case.get("choices", ()), max_steps=30000, default_choice=case.get("tail", 0)))
 
 def run_pb(case):
     run_with(case, Sched(max_steps=30000, preemptions={a: b for a, b in case["preemptions"]}))
@@ -174,7 +174,10 @@ def sim_cases(draw, tier):
                 "abandon": draw(st.integers(0, k2 + 1)) if draw(st.integers(0, 4)) == 0 else None,
                 "kinds": {str(i): draw(st.sampled_from(sorted(KINDS))) for i in r2 if draw(st.booleans())}}
     return {"n": n, "m": m, "items": items, "raising": raising, "fan": fan, "abandon": abandon, "kinds": kinds, "then": then,
-            "choices": draw(st.lists(st.integers(0, 5), max_size=250 if tier == "quick" else 500))}
+            "choices": draw(st.lists(st.integers(0, 5), max_size=250 if tier == "quick" else 500)),
+            # which runnable participant runs once the drawn choices are used up: 0 = the earliest spawned (caller, loader, ...),
+            # larger values let late participants (callbacks, replacement workers) overtake - e.g. the loader finishes last
+            "tail": draw(st.sampled_from([0, 0, 1, 2, 3, 5, 7]))}
 
 def nontrivial(case):
     return (bool(case.get("then")) or (case["n"] >= 2 and case["items"] > case["n"]) or (case["m"] > 0 and case["items"] > case["m"])
@@ -308,7 +311,7 @@ def real_fixed(tier):
 
 SUBCHECKS = [
     Sub(name="sim", run=run_sim, strategy=sim_cases, nontrivial=nontrivial, classes=classes, key=key,
-        quick=1500, thorough=80000, quick_shards=4, quick_budget_s=50,
+        quick=8000, thorough=160000, quick_shards=8, quick_budget_s=50,
         what="Multiprocessor.filter over scheduler-backed queues/events/processes/threads/callbacks with generated schedules; exact output multiset, error propagation, clean abandonment, maxtasksperchild bound, sound deadlock detection"),
     Sub(name="pb", run=run_pb, enumerate=pb_enumerate, nontrivial=lambda c: len(c["preemptions"]) >= 1, exhaustive=True,
         quick_shards=4, quick_budget_s=50, thorough_budget_s=1500,
